@@ -24,6 +24,8 @@
    kept as the regression Example stranded_empty_block_clear_ok.
    NOT proved: histories mixing clears WITH reopen (the two invariants are not yet merged). That combination is decided on
    every run by tools/c01.py under the list-model oracle, with the model executed side by side. *)
+From HC Require Import FrameGuardLib FrameGuard FrameGuardUnified.
+From HC Require Import ClearBeyond ClearBeyondTight.
 From HC Require Import Base NMap Codec Crypto FlatTree Storage Bitfield Oplog Merkle Core OplogFacts StorageFacts OffsetFacts TreeRef CoreFacts Refine ClearRefine Reopen.
 From HC Require Import Unified1 Unified2 Unified3.
 
@@ -544,6 +546,223 @@ Theorem C01_info_unified :
          |}.
 Proof. exact info_correct_U. Qed.
 
+Theorem C01_clear_of_any_range_keeps_the_invariant :
+  forall cr : crypto,
+         crc_ok cr ->
+         (forall x : bytes, Datatypes.length (cr_hash cr x) = 32%nat) ->
+         (forall x : bytes, all_zero (cr_hash cr x) = false) ->
+         (forall x : bytes, bytes_ok (cr_hash cr x) = true) ->
+         forall (f : option bool) (c : core) (d : disk) (j : list sop) (ev : list event) 
+           (bs : list bytes) (cl : N -> bool) (start end_ : N) (c' : core) (w' : world) 
+           (r : res unit),
+         let n := N.of_nat (Datatypes.length bs) in
+         FInv cr c d bs cl ->
+         end_ <= start \/ end_ <= u64_max ->
+         core_clear cr f start end_ c {| w_disk := d; w_journal := j; w_events := ev |} = (c', w', r) ->
+         r = clear_result bs cl start end_ /\
+         FInv cr c' (w_disk w') bs (cl_after cl n start end_) /\ c_keypair c' = c_keypair c.
+Proof. exact clear_any_FInv. Qed.
+
+Theorem C01_clear_beyond_the_length_changes_no_observation :
+  forall cr : crypto,
+         crc_ok cr ->
+         (forall x : bytes, Datatypes.length (cr_hash cr x) = 32%nat) ->
+         (forall x : bytes, all_zero (cr_hash cr x) = false) ->
+         (forall x : bytes, bytes_ok (cr_hash cr x) = true) ->
+         forall (f : option bool) (c : core) (d : disk) (j : list sop) (ev : list event) 
+           (bs : list bytes) (cl : N -> bool) (start end_ : N) (c' : core) (w' : world) 
+           (r : res unit),
+         let n := N.of_nat (Datatypes.length bs) in
+         FInv cr c d bs cl ->
+         n <= start ->
+         start < end_ ->
+         end_ <= u64_max ->
+         core_clear cr f start end_ c {| w_disk := d; w_journal := j; w_events := ev |} = (c', w', r) ->
+         core_info c' = core_info c /\
+         (forall i : N, core_has c' i = core_has c i) /\
+         (forall (i : N) (j1 : list sop) (ev1 : list event) (j2 : list sop) (ev2 : list event),
+          snd (core_get i c' {| w_disk := w_disk w'; w_journal := j1; w_events := ev1 |}) =
+          snd (core_get i c {| w_disk := d; w_journal := j2; w_events := ev2 |})) /\
+         (exists c'' : core,
+            core_open cr None true (w_disk w') = (w_disk w', [], Ok c'') /\
+            FInv cr c'' (w_disk w') bs cl /\
+            c_keypair c'' = c_keypair c /\
+            core_info c'' = core_info c /\
+            (forall i : N, core_has c'' i = core_has c i) /\
+            (forall (i : N) (j1 : list sop) (ev1 : list event) (j2 : list sop) (ev2 : list event),
+             snd (core_get i c'' {| w_disk := w_disk w'; w_journal := j1; w_events := ev1 |}) =
+             snd (core_get i c {| w_disk := d; w_journal := j2; w_events := ev2 |}))).
+Proof. exact clear_beyond_observations_and_reopen. Qed.
+
+Theorem C01_history_with_any_clear_refines_list_model :
+  forall cr : crypto,
+         crc_ok cr ->
+         (forall x : bytes, Datatypes.length (cr_hash cr x) = 32%nat) ->
+         (forall x : bytes, all_zero (cr_hash cr x) = false) ->
+         (forall x : bytes, bytes_ok (cr_hash cr x) = true) ->
+         (forall sk m : bytes, Datatypes.length (cr_sign cr sk m) = 64%nat) ->
+         (forall sk m : bytes, bytes_ok (cr_sign cr sk m) = true) ->
+         forall (ops : list uop) (c : core) (d : disk) (j : list sop) (ev : list event) 
+           (bs : list bytes) (cl : N -> bool) (sk : bytes),
+         FInv cr c d bs cl ->
+         kp_secret (c_keypair c) = Some sk ->
+         wf_a ops ->
+         sumN (map len (bs ++ uappended ops)) <= u64_max ->
+         NODE_SIZE * (2 * N.of_nat (Datatypes.length (bs ++ uappended ops))) <= u64_max ->
+         arun cr ops c {| w_disk := d; w_journal := j; w_events := ev |} = aspec ops bs cl \/
+         (exists k : nat,
+            arun cr ops c {| w_disk := d; w_journal := j; w_events := ev |} =
+            firstn k (aspec ops bs cl) ++ [UOAppend (Panic frame_msg)]).
+Proof. exact history_with_any_clear_refines_list_model. Qed.
+
+Theorem C01_fresh_history_with_any_clear :
+  forall cr : crypto,
+         crc_ok cr ->
+         (forall x : bytes, Datatypes.length (cr_hash cr x) = 32%nat) ->
+         (forall x : bytes, all_zero (cr_hash cr x) = false) ->
+         (forall x : bytes, bytes_ok (cr_hash cr x) = true) ->
+         (forall sk m : bytes, Datatypes.length (cr_sign cr sk m) = 64%nat) ->
+         (forall sk m : bytes, bytes_ok (cr_sign cr sk m) = true) ->
+         forall (kp : keypair) (sk : bytes) (ops : list uop),
+         keypair_ok kp = true ->
+         kp_secret kp = Some sk ->
+         wf_a ops ->
+         sumN (map len (uappended ops)) <= u64_max ->
+         NODE_SIZE * (2 * N.of_nat (Datatypes.length (uappended ops))) <= u64_max ->
+         exists (d0 : disk) (ops0 : list sop) (c0 : core),
+           core_open cr (Some kp) false disk_empty = (d0, ops0, Ok c0) /\
+           (arun cr ops c0 {| w_disk := d0; w_journal := []; w_events := [] |} =
+            aspec ops [] (fun _ : N => false) \/
+            (exists k : nat,
+               arun cr ops c0 {| w_disk := d0; w_journal := []; w_events := [] |} =
+               firstn k (aspec ops [] (fun _ : N => false)) ++ [UOAppend (Panic frame_msg)])).
+Proof. exact fresh_history_with_any_clear. Qed.
+
+Theorem C01_clear_beyond_the_length_issues_no_data_operation :
+  forall cr : crypto,
+         crc_ok cr ->
+         (forall x : bytes, Datatypes.length (cr_hash cr x) = 32%nat) ->
+         (forall x : bytes, all_zero (cr_hash cr x) = false) ->
+         (forall x : bytes, bytes_ok (cr_hash cr x) = true) ->
+         (forall sk m : bytes, Datatypes.length (cr_sign cr sk m) = 64%nat) ->
+         (forall sk m : bytes, bytes_ok (cr_sign cr sk m) = true) ->
+         forall (kp : keypair) (sk : bytes) (ops : list uop) (c : core) (w : world) 
+           (f : option bool) (start end_ : N) (c' : core) (w' : world) (r : res unit),
+         keypair_ok kp = true ->
+         kp_secret kp = Some sk ->
+         wf_a ops ->
+         sumN (map len (uappended ops)) <= u64_max ->
+         NODE_SIZE * (2 * N.of_nat (Datatypes.length (uappended ops))) <= u64_max ->
+         forall (d0 : disk) (ops0 : list sop) (c0 : core),
+         core_open cr (Some kp) false disk_empty = (d0, ops0, Ok c0) ->
+         afinal cr ops c0 {| w_disk := d0; w_journal := []; w_events := [] |} = Some (c, w) ->
+         N.of_nat (Datatypes.length (uappended ops)) <= start ->
+         start < end_ ->
+         end_ <= u64_max ->
+         core_clear cr f start end_ c w = (c', w', r) ->
+         exists (o' : oplog) (fr : bytes),
+           let off := ENTRIES_OFFSET + ol_entries_bytes (c_oplog c) in
+           let c2 :=
+             {|
+               c_keypair := c_keypair c;
+               c_oplog := o';
+               c_tree := c_tree c;
+               c_bitfield := bf_set_range (c_bitfield c) start (end_ - start) false;
+               c_header := c_header c;
+               c_skip := c_skip c
+             |} in
+           let w1 :=
+             {|
+               w_disk := d_set (w_disk w) Oplog (f_write (d_oplog (w_disk w)) off fr);
+               w_journal := SW Oplog off fr :: w_journal w;
+               w_events := w_events w
+             |} in
+           (r = Err BadArgument /\ c' = c2 /\ w' = w1 \/ r = Ok tt /\ maybe_flush cr f c2 w1 = (c', w', Ok tt)) /\
+           d_data (w_disk w') = d_data (w_disk w) /\ w_events w' = w_events w.
+Proof. exact reachable_clear_beyond_no_data_op. Qed.
+
+Theorem C01_append_never_panics_for_bounded_batches :
+  forall cr : crypto,
+         crc_ok cr ->
+         (forall x : bytes, Datatypes.length (cr_hash cr x) = 32%nat) ->
+         (forall x : bytes, all_zero (cr_hash cr x) = false) ->
+         (forall x : bytes, bytes_ok (cr_hash cr x) = true) ->
+         (forall sk m : bytes, Datatypes.length (cr_sign cr sk m) = 64%nat) ->
+         (forall sk m : bytes, bytes_ok (cr_sign cr sk m) = true) ->
+         forall (f : option bool) (batch : list bytes) (c : core) (d : disk) (j : list sop) 
+           (ev : list event) (bs : list bytes) (cl : N -> bool) (sk : bytes) (c' : core) 
+           (w' : world) (r : res (N * N)),
+         FInv cr c d bs cl ->
+         kp_secret (c_keypair c) = Some sk ->
+         sumN (map len (bs ++ batch)) <= u64_max ->
+         NODE_SIZE * (2 * N.of_nat (Datatypes.length (bs ++ batch))) <= u64_max ->
+         N.of_nat (Datatypes.length batch) <= MAX_BATCH ->
+         core_append cr f batch c {| w_disk := d; w_journal := j; w_events := ev |} = (c', w', r) ->
+         r = Ok (N.of_nat (Datatypes.length (bs ++ batch)), sumN (map len (bs ++ batch))) /\
+         FInv cr c' (w_disk w') (bs ++ batch) (cl_mask cl (N.of_nat (Datatypes.length bs))) /\
+         c_keypair c' = c_keypair c.
+Proof. exact append_FInv_no_panic. Qed.
+
+Theorem C01_history_without_frame_alternative :
+  forall cr : crypto,
+         crc_ok cr ->
+         (forall x : bytes, Datatypes.length (cr_hash cr x) = 32%nat) ->
+         (forall x : bytes, all_zero (cr_hash cr x) = false) ->
+         (forall x : bytes, bytes_ok (cr_hash cr x) = true) ->
+         (forall sk m : bytes, Datatypes.length (cr_sign cr sk m) = 64%nat) ->
+         (forall sk m : bytes, bytes_ok (cr_sign cr sk m) = true) ->
+         forall (ops : list uop) (c : core) (d : disk) (j : list sop) (ev : list event) 
+           (bs : list bytes) (cl : N -> bool) (sk : bytes),
+         FInv cr c d bs cl ->
+         kp_secret (c_keypair c) = Some sk ->
+         wf_u ops (N.of_nat (Datatypes.length bs)) ->
+         batches_small ops ->
+         sumN (map len (bs ++ uappended ops)) <= u64_max ->
+         NODE_SIZE * (2 * N.of_nat (Datatypes.length (bs ++ uappended ops))) <= u64_max ->
+         urun cr ops c {| w_disk := d; w_journal := j; w_events := ev |} = uspec ops bs cl.
+Proof. exact history_unified_no_panic. Qed.
+
+Theorem C01_fresh_history_without_frame_alternative :
+  forall cr : crypto,
+         crc_ok cr ->
+         (forall x : bytes, Datatypes.length (cr_hash cr x) = 32%nat) ->
+         (forall x : bytes, all_zero (cr_hash cr x) = false) ->
+         (forall x : bytes, bytes_ok (cr_hash cr x) = true) ->
+         (forall sk m : bytes, Datatypes.length (cr_sign cr sk m) = 64%nat) ->
+         (forall sk m : bytes, bytes_ok (cr_sign cr sk m) = true) ->
+         forall (kp : keypair) (sk : bytes) (ops : list uop),
+         keypair_ok kp = true ->
+         kp_secret kp = Some sk ->
+         wf_u ops 0 ->
+         batches_small ops ->
+         sumN (map len (uappended ops)) <= u64_max ->
+         NODE_SIZE * (2 * N.of_nat (Datatypes.length (uappended ops))) <= u64_max ->
+         exists (d0 : disk) (ops0 : list sop) (c0 : core),
+           core_open cr (Some kp) false disk_empty = (d0, ops0, Ok c0) /\
+           urun cr ops c0 {| w_disk := d0; w_journal := []; w_events := [] |} =
+           uspec ops [] (fun _ : N => false).
+Proof. exact fresh_history_unified_no_panic. Qed.
+
+Theorem C01_frame_guard_is_real_for_appends :
+  forall cr : crypto,
+         crc_ok cr ->
+         (forall x : bytes, Datatypes.length (cr_hash cr x) = 32%nat) ->
+         (forall x : bytes, all_zero (cr_hash cr x) = false) ->
+         (forall x : bytes, bytes_ok (cr_hash cr x) = true) ->
+         (forall sk m : bytes, Datatypes.length (cr_sign cr sk m) = 64%nat) ->
+         (forall sk m : bytes, bytes_ok (cr_sign cr sk m) = true) ->
+         forall (f : option bool) (batch : list bytes) (c : core) (d : disk) (j : list sop) 
+           (ev : list event) (bs : list bytes) (cl : N -> bool) (sk : bytes) (c' : core) 
+           (w' : world) (r : res (N * N)),
+         FInv cr c d bs cl ->
+         kp_secret (c_keypair c) = Some sk ->
+         sumN (map len (bs ++ batch)) <= u64_max ->
+         NODE_SIZE * (2 * N.of_nat (Datatypes.length (bs ++ batch))) <= u64_max ->
+         31580643 <= N.of_nat (Datatypes.length batch) ->
+         core_append cr f batch c {| w_disk := d; w_journal := j; w_events := ev |} = (c', w', r) ->
+         r = Panic frame_msg.
+Proof. exact append_FInv_guard_fires. Qed.
+
 Print Assumptions C01_fresh_history_with_reopen.
 Print Assumptions C01_history_with_reopen.
 Print Assumptions C01_reopen_changes_no_observation.
@@ -585,3 +804,12 @@ Print Assumptions C01_info_unified.
 Print Assumptions Unified3.toy_history_unified.
 Print Assumptions Unified3.toy_clear_reopen_reads.
 Print Assumptions Unified3.toy_unified_hypotheses.
+Print Assumptions C01_clear_of_any_range_keeps_the_invariant.
+Print Assumptions C01_clear_beyond_the_length_changes_no_observation.
+Print Assumptions C01_history_with_any_clear_refines_list_model.
+Print Assumptions C01_fresh_history_with_any_clear.
+Print Assumptions C01_clear_beyond_the_length_issues_no_data_operation.
+Print Assumptions C01_append_never_panics_for_bounded_batches.
+Print Assumptions C01_history_without_frame_alternative.
+Print Assumptions C01_fresh_history_without_frame_alternative.
+Print Assumptions C01_frame_guard_is_real_for_appends.
